@@ -1,4 +1,5 @@
 import Driver.ReadCheck
+import Driver.TouchRange
 /- suite `corrupt` (C17): single-point corruptions of valid views, read through every access path.
 
 agree : the reader model (SaModel/Read/Reader.lean, `Fixes.all`) reproduces constructor and read outcomes.
@@ -63,6 +64,14 @@ def handle (j : Json) : Except String Verdict := do
         | .error _ => false
       let untouched := baseImpls.getD k Json.null == impl
       if untouched then nUntouched := nUntouched + 1
+      -- an `Ok` that had to visit a slot beyond the length of the array it belongs to (independent of what the
+      -- uncorrupted view would have given there: the elements come from outside the ranges the view designates)
+      if !consistent && !r.bulk && !(touchOK r.ty rec_ r.idx) then
+        return { agree := (match compareRead m impl with | .agree => true | _ => false),
+                 spec := [("C17", "fail"), ("C16", "pass")],
+                 sig := s!"C17/out-of-range/{attributeRead fm col r impl}/{fam}/{targetKind r.ty}",
+                 tags := tags,
+                 why := s!"read #{k} (idx {r.idx}, {targetKind r.ty}) returns Ok although it has to visit a slot beyond the length of the array it belongs to ({cclass}): {impl.compress.take 240}" }
       if !consistent && !untouched then
         -- known finding #23: typed reads of struct / list / map into non-Option targets never consult validity
         let typedIgnoresValidity := (match r.ty with | .any => false | _ => true) &&
